@@ -420,7 +420,7 @@ Not decided: doc-comment attribution (excluded by the property), nom's internals
     let mut an = An { m, fns, memo: BTreeMap::new(), in_progress: vec![], boundaries: vec![], unknown: vec![], applications: BTreeMap::new() };
     // fixpoint over named parsers (recursion): iterate until summaries are stable
     let parser_fns: Vec<&FnInfo> = m.fns.iter().filter(|f| f.module.starts_with("lexer") && f.sig.inputs.len() == 1 && tok(&f.sig.inputs[0]).contains("Input") && tok(&f.sig.output).contains("ParserResult")).collect();
-    ctx.floor("C13/parser-fns", parser_fns.len(), 140);
+    ctx.floor("C13/parser-fns", parser_fns.len(), 100);
     let mut rounds = 0;
     loop {
         rounds += 1;
@@ -486,8 +486,8 @@ Not decided: doc-comment attribution (excluded by the property), nom's internals
     let sw = an.applications.get("skip_ws").cloned().unwrap_or(0);
     ctx.extra.insert("skip_ws_and_comments_applications".into(), json!(swc));
     ctx.extra.insert("skip_ws_applications".into(), json!(sw));
-    ctx.floor("C13/skip_ws_and_comments-applications", swc, 380);
-    ctx.floor("C13/skip_ws-applications", sw, 30);
+    ctx.floor("C13/skip_ws_and_comments-applications", swc, 250);
+    ctx.floor("C13/skip_ws-applications", sw, 20);
     for f in &parser_fns {
         ctx.func(&f.key);
     }
